@@ -37,7 +37,7 @@ func NormalizeAndValidate(path string) (string, error) {
 		return "", NewError(path, errNotRelative)
 	}
 	// https://github.com/bufbuild/buf/issues/51
-	if strings.HasPrefix(normalizedPath, normalizedRelPathJumpContextPrefix) {
+	if normalizedPath == ".." || strings.HasPrefix(normalizedPath, normalizedRelPathJumpContextPrefix) {
 		return "", NewError(path, errOutsideContextDir)
 	}
 	return normalizedPath, nil
